@@ -396,7 +396,7 @@ struct Lattice {
         int n; try{ n = (cls == "points" ? 0 : npoints(target)) + (int) orphans.size(); }catch(std::exception &){ return; }
         if (n < nmin || n > std::max(nmax, allow) || n + (int) completion.size() > 12) return;
         if (n >= 6 && variant && cls != "full") return;                      // budget: 6-sample sets of the outputs/transform variants only as full grids
-        if (n >= 7 && cls != "full" && !(cls == "beyond" && host.depth == 0 && target.rule == rule_rleja && target.fam == F_GLOBAL)) return;
+        if (n >= 7 && (cls != "full" || target.rule == rule_fejer2 || (!target.aw.empty() && target.aw[0] == 2))) return; // budget: five 7-sample sets (cc 2-D anisotropic, rleja, gauss-patterson, sequence rleja, localp-zero)
         if (seen.insert(c.str()).second) confs.push_back(c);
     }
     // full / subset / beyond variants of one target (host = target, host = deeper grid, host = shallower grid)
@@ -508,7 +508,6 @@ static std::vector<Conf> lattice(){
 }
 
 // ------------------------------------------------------------------------------------------------ one work unit = one configuration
-static double cost(const Ref &R){ double c = 1; for(int i=2;i<=R.n;i++) c *= i; c *= (double)(1L << (R.n - 1)) * (R.conf.rt && thorough() && R.n <= 5 ? 6 : 2); return c; }
 
 static void run_unit(const Conf &conf){
     double t0 = vf::now(); std::string unit = conf.name();
@@ -528,7 +527,8 @@ static void run_unit(const Conf &conf){
       R = build_ref(conf, true);
       if (!R.build_error.empty()){ vf::emit(vf::J().s("t","error").s("what", unit + ": " + R.build_error)); munmap(sh, sizeof(Shm)); return; } }
     if (!R.ref_mismatch.empty()){ Seq s; s.perm.resize(R.n); std::iota(s.perm.begin(), s.perm.end(), 0); s.mask = 0; std::string sig = "C09:one-batch-construction-differs-from-loadNeededValues:" + R.famtag; sh->nviol++; sh->bump(sig); vf::violation(sig, unit, s.json(R), R.ref_mismatch); }
-    bool with_rt = thorough() && conf.rt && R.n <= 5;
+    // round trips: every configuration up to 4 samples; 5 samples for the families with a tensor list (Global, Fourier) and for the full grids of the others
+    bool with_rt = thorough() && conf.rt && (R.n <= 4 || (R.n == 5 && (R.fam == F_GLOBAL || R.fam == F_FOURIER || conf.cls == "full")));
     long total = 1L << (R.n - 1); for(int i=2;i<=R.n;i++) total *= i;   // steps = permutations x compositions (each step runs every query mode / round-trip variant)
     long s = 0; bool complete = true; int ncrash = 0; const long CH = with_rt ? 512 : 2048;
     while(s < total){
@@ -587,7 +587,7 @@ int main(int argc, char **argv){
       std::stable_sort(ord.begin(), ord.end()); std::vector<Conf> s; for(auto &p : ord) s.push_back(confs[p.second]); confs = s; }
     size_t done = vf::parallel_units(confs.size(), (int) A.geti("--workers", 8), [&](size_t ui){ run_unit(confs[ui]); });
     std::string bound = std::string("every permutation x every batch composition x query modes ") + (thorough() ? "{none, weights/classic, estimated/fds}" : "{none, weights/classic}") + " of target sets with n <= " + (thorough() ? "6 (selected n = 7; third query mode for n <= 5)" : "5") + " samples"
-        + (thorough() ? "; write/read round trip at every position x {binary, ascii} for n <= 5" : "") + "; " + std::to_string(confs.size()) + " configurations";
+        + (thorough() ? "; write/read round trip at every position x {binary, ascii} for n <= 4 and for the Global/Fourier and full-grid configurations with n = 5" : "") + "; " + std::to_string(confs.size()) + " configurations";
     vf::emit(vf::J().s("t","summary").i("units_total", (long long) confs.size()).i("units_done", (long long) done).s("bound", bound).b("exhaustive", done == confs.size() && !vf::past_deadline()));
     return 0;
 }
